@@ -1,12 +1,13 @@
-(* deps: CredModel.vo *)
+(* deps: CredModel.vo RetryModel.vo *)
 (* Extraction of the credential pipeline model.  ExtrOcamlBasic directives only. *)
 Require Extraction.
 Require Import ExtrOcamlBasic.
-From MV Require Import Bytes Base64Model CredModel.
+From MV Require Import Bytes Base64Model CredModel RetryModel.
 Extraction Language OCaml.
 Extraction "model.ml"
   b2n n2b msg0 msg_reset set_err enc_process enc_pre enc_core dec_process dec_rollback
   dec_unarmor dec_unpack_outer dec_decrypt_mac dec_decompress dec_unpack_inner dec_parse
   dec_time dec_authorized cred_rkey r_mem armor pack_outer pack_inner
   cbc_encrypt cbc_decrypt pkcs_pad pkcs_unpad zip_compress zip_decompress_length
-  dek_subkey mac_subkey mac_size cipher_key_size cipher_blk_size cipher_iv_size.
+  dek_subkey mac_subkey mac_size cipher_key_size cipher_blk_size cipher_iv_size
+  munge_decode_under_faults dec_attempt.
